@@ -42,7 +42,9 @@ int main(void) {
     static const long long secs[] = {0, 1, 1700000000LL, 2147483647LL, 4102444800LL};
     static const long nsecs[] = {0, 1, 499999999L, 500000000L, 999999998L, 999999999L};
     static const long long timeouts[] = {1, 999, 500000000LL, 999999999LL, 1000000000LL, 1000000001LL, 1500000000LL, 1999999999LL, 2000000000LL,
-                                         3600000000000LL, 9007199254740993LL};
+                                         3600000000000LL, 9007199254740993LL,
+                                         /* the largest finite timeouts (within the last second below 2^63) */
+                                         9223372036854775807LL, 9223372036854775806LL, 9223372035854775808LL};
     static mInstance inst;
     mInstantiate(&inst, NULL);
     m_init32(&inst, 64, 7);
